@@ -560,3 +560,91 @@ Example saves_example :
   saves Absent ["long text"; "x"]%string = Text "x" /\ saves (Text "old") ["a"; "bb"; "c"]%string = Text "c" /\
   file_write_no_truncate (Text "long text") "x" = Text "xong text".
 Proof. vm_compute. repeat split; reflexivity. Qed.
+
+(* ------------------------------------------------------------------ consumers of a PortRange *)
+Lemma In_range_from n : forall a i, In i (range_from n a) <-> a <= i < a + N.of_nat n.
+Proof.
+  induction n as [|n IH]; intros a i; cbn [range_from In]; [lia|].
+  rewrite IH. lia.
+Qed.
+
+Lemma In_range_incl a b i : In i (range_incl a b) <-> a <= i <= b.
+Proof.
+  unfold range_incl. destruct (N.ltb_spec b a) as [L|L].
+  - cbn. lia.
+  - rewrite In_range_from. lia.
+Qed.
+
+Definition port_in_use (r : port_range) (used : list N) : Prop :=
+  exists p, In p used /\ match r with Single q => p = q | Range a b => a <= p <= b end.
+
+Lemma no_panic_check_port_availability_lemma r nodes : check_port_availability r nodes <> Panic.
+Proof. destruct r; cbn [check_port_availability]; destruct (existsb _ _); discriminate. Qed.
+
+(* refused exactly when a recorded port lies in the request -- for every range, also 0-65535, x-65535, a = b, b < a *)
+Lemma check_port_availability_spec r nodes :
+  check_port_availability r nodes = Err 1 <-> port_in_use r (all_ports nodes).
+Proof.
+  unfold port_in_use. destruct r as [q|a b]; cbn [check_port_availability].
+  - destruct (existsb (N.eqb q) (all_ports nodes)) eqn:E.
+    + apply existsb_exists in E. destruct E as (p & Hin & E). apply N.eqb_eq in E. subst. split; [eauto | reflexivity].
+    + split; [discriminate|]. intros (p & Hin & ->). exfalso.
+      assert (existsb (N.eqb q) (all_ports nodes) = true) by (apply existsb_exists; exists q; split; [exact Hin | apply N.eqb_refl]).
+      congruence.
+  - destruct (existsb _ (range_incl a b)) eqn:E.
+    + apply existsb_exists in E. destruct E as (i & Hi & E). apply existsb_exists in E. destruct E as (p & Hin & E).
+      apply N.eqb_eq in E. subst. apply In_range_incl in Hi. split; [eauto | reflexivity].
+    + split; [discriminate|]. intros (p & Hin & Hr). exfalso.
+      assert (existsb (fun i => existsb (N.eqb i) (all_ports nodes)) (range_incl a b) = true).
+      { apply existsb_exists. exists p. split; [apply In_range_incl; exact Hr|].
+        apply existsb_exists. exists p. split; [exact Hin | apply N.eqb_refl]. }
+      congruence.
+Qed.
+
+Lemma check_port_availability_ok r nodes :
+  check_port_availability r nodes = Ok tt <-> ~ port_in_use r (all_ports nodes).
+Proof.
+  rewrite <- check_port_availability_spec. destruct r; cbn [check_port_availability]; destruct (existsb _ _);
+    split; intros H; try discriminate; try reflexivity; try congruence; exfalso; apply H; reflexivity.
+Qed.
+
+(* `start..end + 1` in u16: the debug build panics, the release build sees an empty range and misses the conflict *)
+Lemma port_availability_exclusive_refuted_lemma :
+  check_port_availability_exclusive Debug (Range 65530 65535) [(None, None, 65531)] = Panic /\
+  check_port_availability_exclusive Release (Range 65530 65535) [(None, None, 65531)] = Ok tt /\
+  check_port_availability (Range 65530 65535) [(None, None, 65531)] = Err 1.
+Proof. repeat split; vm_compute; reflexivity. Qed.
+
+Example port_availability_examples :
+  check_port_availability (Range 0 65535) [(Some 13000, None, 8081)] = Err 1 /\
+  check_port_availability (Range 0 65535) [] = Ok tt /\
+  check_port_availability (Range 12000 12005) [(Some 12006, Some 11999, 8081)] = Ok tt /\
+  check_port_availability (Range 12000 12005) [(None, Some 12005, 8081)] = Err 1 /\
+  check_port_availability (Range 7 7) [(None, Some 7, 1)] = Err 1 /\
+  check_port_availability (Range 9 7) [(None, Some 8, 1)] = Ok tt /\
+  check_port_availability (Single 65535) [(None, None, 65535)] = Err 1 /\
+  start_port (Some (Range 5 9)) = Some 5.
+Proof. vm_compute. repeat split; reflexivity. Qed.
+
+(* ------------------------------------------------------------------ try_deserialize_record *)
+Lemma no_panic_try_deserialize_record_lemma {A} (decode : list N -> option A) value :
+  try_deserialize_record decode value <> Panic.
+Proof.
+  unfold try_deserialize_record. destruct (record_payload value) eqn:E; cbn [bind]; try discriminate.
+  - destruct (decode v); discriminate.
+  - exfalso. eapply no_panic_record_payload_lemma. exact E.
+Qed.
+
+(* a value that holds nothing beyond the header is refused *)
+Lemma try_deserialize_record_short {A} (decode : list N -> option A) value :
+  len value <= HEADER_SIZE -> try_deserialize_record decode value = Err 2.
+Proof.
+  intros H. unfold try_deserialize_record, record_payload.
+  destruct (N.ltb_spec HEADER_SIZE (len value)); [lia | reflexivity].
+Qed.
+
+Lemma payload_slice_first_refuted_lemma :
+  (forall (decode : list N -> option unit), try_deserialize_record_slice_first decode [] = Panic) /\
+  (forall (decode : list N -> option unit), try_deserialize_record_slice_first decode [145] = Panic) /\
+  (forall (decode : list N -> option unit), try_deserialize_record decode [145] = Err 2).
+Proof. repeat split; intros; vm_compute; reflexivity. Qed.
